@@ -26,7 +26,10 @@ Section SemProofs.
   Let rho := exec e0 gnodes.
 
   Hypothesis Hnd : NoDup gnodes.
-  Hypothesis Hprod : forall v n, prod v = Some n <-> In n gnodes /\ In v (nouts n).
+  (* SSA, for the nodes of the source: a value is an output of node n iff n is its producer (nodes of
+     nested bodies produce values too; they are not in gnodes and are not constrained) *)
+  Hypothesis Hprod : forall v n, In n gnodes -> (prod v = Some n <-> In v (nouts n)).
+  Hypothesis Hneeded : forall n, NeededNode n -> In n gnodes.
   Hypothesis Htopo : forall l1 n l2, gnodes = l1 ++ n :: l2 ->
                        forall u p, reads n u -> prod u = Some p -> In p l1.
   Hypothesis Hkeep : forall n, In n gnodes -> (keep n = true <-> NeededNode n).
@@ -82,7 +85,7 @@ Section SemProofs.
     intros Hg Hv. unfold rho. rewrite Hg, exec_app. apply exec_other.
     intros n Hn Hin.
     assert (Hp : prod v = Some n).
-    { apply Hprod. split; [rewrite Hg; apply in_or_app; right; exact Hn | exact Hin]. }
+    { apply Hprod; [rewrite Hg; apply in_or_app; right; exact Hn | exact Hin]. }
     destruct Hv as [Hv|[p [Hv Hp1]]]; [congruence|].
     assert (p = n) by congruence. subst p.
     assert (Hnd' : NoDup (l1 ++ l2)) by (rewrite <- Hg; exact Hnd).
@@ -109,7 +112,7 @@ Section SemProofs.
         intros v R Hv.
         destruct (in_dec Nat.eq_dec v (nouts n)) as [Hout|Hout].
         * (* an output of n: same operator on equal arguments *)
-          assert (Hp : prod v = Some n) by (apply Hprod; split; assumption).
+          assert (Hp : prod v = Some n) by (apply Hprod; assumption).
           assert (Hg' : gnodes = (l1 ++ [n]) ++ l2) by (rewrite <- app_assoc; exact Hg).
           assert (Hs' : prod v = None \/ exists p, prod v = Some p /\ In p (l1 ++ [n])).
           { right. exists n. split; [exact Hp | apply in_or_app; right; left; reflexivity]. }
@@ -127,7 +130,7 @@ Section SemProofs.
         * rewrite exec_node_other by exact Hout. apply IH; [exact R|].
           destruct Hv as [H|[H|[p [Hp Hin]]]]; auto.
           apply in_app_or in Hin. destruct Hin as [Hin|[Hin|[]]]; [right; right; exists p; auto|].
-          subst p. exfalso. apply Hout. apply (proj1 (Hprod v n) Hp).
+          subst p. exfalso. apply Hout. apply (proj1 (Hprod v n Hn) Hp).
       + (* node not needed: skipped *)
         rewrite app_nil_r. intros v R Hv. apply IH; [exact R|].
         destruct Hv as [H|[H|[p [Hp Hin]]]]; auto.
@@ -141,7 +144,8 @@ Section SemProofs.
     forall v, Reach v -> exec e1 (filter keep gnodes) v = rho v.
   Proof.
     intros v R. apply (sem_prefix gnodes [] (eq_sym (app_nil_r _)) v R).
+    destruct (in_dec Nat.eq_dec v inputs) as [Hi|Hi]; [left; exact Hi|].
     destruct (prod v) as [p|] eqn:Ep; [|right; left; reflexivity].
-    right. right. exists p. split; [reflexivity|]. apply (proj1 (Hprod v p) Ep).
+    right. right. exists p. split; [reflexivity|]. apply Hneeded. exists v. auto.
   Qed.
 End SemProofs.
